@@ -26,8 +26,9 @@
 //     attribute to taxid 1; whether 1 exists in a synthetic taxonomy is an accident, so that
 //     shape is left out.
 //   - Taxonomy.LCA(sequence, threshold) and obiannotate --add-lca-in are checked at threshold
-//     1.0 (--lca-error 0, "zero error tolerance") only; below 1.0 ties are broken by map
-//     iteration order and the statement makes no claim.  The merged_taxid maps hold resolvable
+//     1.0 (--lca-error 0, "zero error tolerance") only in tax_test.go / cli_test.go; below 1.0 ties are
+//     broken by map iteration order.  wlca_test.go asks thresholds in (0,1] with large weights and asserts
+//     below 1.0 only what the option text of --lca-error and the mechanism decide (see its header).  The merged_taxid maps hold resolvable
 //     taxids (nodes or aliases) with weights >= 1: an unknown taxid there is reported by a panic
 //     (not a tree answer), zero weights do not occur in maps written by the tools.  Only the
 //     returned taxon (and the derived annotations taxid / name / error = 0) is compared, not the
@@ -66,6 +67,8 @@ func TestMain(m *testing.M) {
 		evid.Spec{Name: "TestPropRedeclared", Kind: "rapid", Quick: 4000, Thorough: 80000, QuickShards: 8, ThoroughShards: 16, TimeoutS: 3000},
 		evid.Spec{Name: "TestPropHistory", Kind: "rapid", Quick: 4000, Thorough: 80000, QuickShards: 4, ThoroughShards: 16, TimeoutS: 3000},
 		evid.Spec{Name: "TestPropFind", Kind: "rapid", Quick: 160, Thorough: 3200, QuickShards: 8, ThoroughShards: 16, TimeoutS: 3000},
+		evid.Spec{Name: "TestPropWeightedLCA", Kind: "rapid", Quick: 16000, Thorough: 400000, QuickShards: 8, ThoroughShards: 16, TimeoutS: 3000},
+		evid.Spec{Name: "TestPropWeightedLCACLI", Kind: "rapid", Quick: 96, Thorough: 3200, QuickShards: 8, ThoroughShards: 16, TimeoutS: 3000},
 	)
 	evid.Commands("obigrep", "obiannotate", "obifind", "obirefidx")
 	evid.Note("rule", "A case is a taxonomy (parent array with parent[i]<i, distinct taxids in several numbering schemes, rank labels from the NCBI ladder with 'no rank' gaps and repeated labels on a path, scientific names, merged-id aliases, ids belonging to nothing) built either through the obitax API (AddNewTaxa in a generated order, ReindexParent, AddNewName, AddNewAlias) or by writing nodes.dmp/names.dmp/merged.dmp and calling ncbitaxdump.LoadNCBITaxDump, plus queries. "+
@@ -77,6 +80,8 @@ func TestMain(m *testing.M) {
 		"Stateful histories (hist_test.go, TestPropHistory): 1-4 rounds on one Taxonomy object, each = new taxa (children before parents too), re-declarations with replace=true (moved under a non-descendant / other rank / identical; superseded declarations before them; replace=false declarations that must be refused and change nothing), ReindexParent at random places (must report an error exactly when a parent id is missing) and once after the last declaration, names for the (re-)declared taxa (before or after ReindexParent), old ids (new, re-declared for re-declared taxa, chains, re-pointed, for unknown ids), then 2-10 queries against the tree of the model, the descendants of the taxa touched in the round first. Non-trivial / distinct as for the queries above.")
 	evid.Note("rule_commands", "TestPropFind: obifind -t DIR on generated dumps, 3-6 runs each: listing restricted by 0-4 -r (taxids or merged ids, 40% merged ids, the same clade twice), --rank (used / unused label), -P, name patterns (regexp or -F, with or without -a; the harness computes the same match on the scientific names), -p TAXID (path, order judged), -r with an id nothing carries (error or empty listing). Every printed line (taxid, parent taxid, rank, name or root-to-taxon path of names) is compared with the tree and the set of listed taxa with {taxon : rank matches and it is in one of the clades and its name matches}, each exactly once per pattern. Non-trivial run = some but not all taxa selected by clades+rank (path: not the root). "+
 		"TestPropCLI additionally runs obiannotate --taxonomic-path --taxonomic-rank --scientific-name (records with resolvable taxids; path string root->taxon of taxid@name@rank) and obirefidx on the records given identical nucleotides (every index must be {0: LCA of the taxa of all records with a resolvable taxid}; records with unknown taxids dropped).")
+	evid.Note("rule_weighted_lca", "TestPropWeightedLCA / TestPropWeightedLCACLI (wlca_test.go): trees of 2..80 nodes (all shapes, API- or dump-built), records whose merged_taxid map names 1-6 distinct taxa (inside the clade of an ancestor of the first one: siblings, cousins, an ancestor and its descendants one time in four; ids given as merged ids now and then; four in-memory representations of the map / the FASTA JSON header) with weights drawn as: small (1..9), all equal (1 .. 2^59), one or two heavy taxa (10^3..10^12, 2^31, 2^53, 2^59, +-1) against taxa of weight 1..3, a total N (10^3..2^59) with a minority of round(e*N)-2..+2 for a tolerated error e the case uses (so that shares sit at and around 1-e: e = 10^-1..10^-9, 0.0005, 0.5, ...), powers of two around 2^31 / 2^53, decades. Library: Taxonomy.LCA and AddLCAWorker at threshold 1.0 and 1-4 thresholds 1-e in (0,1] (listed e or random); CLI: obiannotate --add-lca-in SLOT without --lca-error / with --lca-error 0 and with 1-2 other values, 20-60 records per run. "+
+		"Oracle (math/big.Rat): threshold 1.0 -> exactly the deepest common ancestor-or-self of all the taxa (unless the discordant share is <= 1e-9), error 0; any threshold -> the answer lies between that taxon and a merged taxon, on the heaviest descent; antichain maps below 1.0 -> share of the clade of the answer >= threshold - 1e-9, share of its heaviest child clade < threshold + 1e-9, returned fraction = share of the answer (1e-9), written error = 1 - share within 0.0005. One evaluation = one (record, threshold); non-trivial = the map names at least two distinct taxa; distinct = hash of (tree, build, map, representation, threshold).")
 	evid.Main(m, "C14")
 }
 
